@@ -2047,6 +2047,52 @@ fn c18_call_errors(rt: &FfiRuntime) -> Stats {
                 st.violation(Violation { signature: "parameter-validation:rust-differs".into(), summary: format!("{op:?} {s} {c}: Rust API returned {r:?}"), replay: json!({}) });
             }
         }
+        // (d) a list handle belongs to the caller: it can be used for any number of calls
+        for regs in [false, true] {
+            let peer = spawn_peer(PeerBehaviour::Good, false);
+            let fc2 = FfiClient::new(rt, peer.addr, 4, (1000, 1000), decode_nothing());
+            unsafe { ffi::rodbus_client_channel_enable(fc2.ch) };
+            if !fc2.wait_state(2, 3000) {
+                st.violation(Violation { signature: "MACHINERY:ffi-client-did-not-connect".into(), summary: "list reuse".into(), replay: json!({}) });
+                continue;
+            }
+            let mut outcomes = vec![];
+            unsafe {
+                let bits = ffi::rodbus_bit_list_create(10);
+                let rl = ffi::rodbus_register_list_create(3);
+                for i in 0..10u16 {
+                    ffi::rodbus_bit_list_add(bits, i % 3 == 0);
+                }
+                for i in 0..3u16 {
+                    ffi::rodbus_register_list_add(rl, 0x2200 + i);
+                }
+                for _ in 0..3 {
+                    let cbs = Arc::new(Mutex::new(CbState::default()));
+                    let d = Arc::new(Mutex::new(0));
+                    let cb = ffi::WriteCallback { on_complete: Some(write_complete), on_failure: Some(cb_failure), on_destroy: Some(ctx_destroy::<CbState>), ctx: ctx_new(cbs.clone(), d.clone()) };
+                    let param = ffi::RequestParam { unit_id: 1, timeout: 2000 };
+                    let rc = if regs { ffi::rodbus_client_channel_write_multiple_registers(fc2.ch, param, 0x10, rl, cb) } else { ffi::rodbus_client_channel_write_multiple_coils(fc2.ch, param, 9, bits, cb) };
+                    let comps = wait_completion(&cbs, 4000);
+                    outcomes.push((rc, comps));
+                }
+                ffi::rodbus_bit_list_destroy(bits);
+                ffi::rodbus_register_list_destroy(rl);
+            }
+            let frames = peer.wait_requests(3, 3000);
+            let bodies: Vec<Vec<u8>> = frames.iter().map(|f| f[2..].to_vec()).collect();
+            st.evaluations += 1;
+            st.class("call:list-reuse");
+            st.observe(&(regs, outcomes.len(), frames.len()));
+            let all_ok = outcomes.iter().all(|(rc, c)| *rc == OK && *c == vec![Completion::WriteOk]);
+            let same = bodies.len() == 3 && bodies.iter().all(|b| *b == bodies[0]);
+            if !all_ok || !same {
+                st.violation(Violation {
+                    signature: format!("list-not-reusable:{}", if regs { "registers" } else { "coils" }),
+                    summary: format!("three write_multiple_{} calls with one list handle: (return code, callbacks) {outcomes:?}, frames received by the peer {:?} (the Rust API sends the same request every time)", if regs { "registers" } else { "coils" }, frames.iter().map(|f| hex(f)).collect::<Vec<_>>()),
+                    replay: json!({"kind": "c18-call-errors"}),
+                });
+            }
+        }
         // null channel
         let st2 = Arc::new(Mutex::new(CbState::default()));
         let d2 = Arc::new(Mutex::new(0));
@@ -2668,7 +2714,7 @@ pub fn check_c18(tier: &str) -> i32 {
         "C18",
         tier,
         "exploration",
-        "differential: every scenario runs once through the extern \"C\" functions of rodbus-ffi and once through the Rust API against identical scripted loopback peers. Client: 8 operations x outcomes {success with data, each exception code (all 256 for two operations, thorough: for all), bad reply, bad frame, timeout, connection closed} x unit ids {0,1,7,255} x timeouts {1 ms, 60 ms, 1 s against a silent peer; 10 s and 2^32-1 ms otherwise}; request bytes must be identical, the C callback must report the same values or the same-named error (hand-written name table), on_complete+on_failure exactly once, on_destroy exactly once; calls that themselves report an error (no connection, queue full, invalid range, null channel). Server: 4 write callbacks x WriteResult {success, 9 named exceptions, raw codes, callback not set}: reply bytes equal the Rust server's with the same-named result and the callback sees exactly the sent values. Enums: all 36 decode levels (compared through the log lines both APIs emit), client states on scripted connection histories, retry strategy through behaviour, TLS minimum version / certificate mode / expected name / wildcard switch of C-ABI clients and servers through admission by independent rustls peers, all 72 combinations of DataBits x FlowControl x Parity x StopBits (and three baud rates) through the line settings of a pty, port states on a scripted history. distinct = distinct (operation, peer behaviour, outcome) triples",
+        "differential: every scenario runs once through the extern \"C\" functions of rodbus-ffi and once through the Rust API against identical scripted loopback peers. Client: 8 operations x outcomes {success with data, each exception code (all 256 for two operations, thorough: for all), bad reply, bad frame, timeout, connection closed} x unit ids {0,1,7,255} x timeouts {1 ms, 60 ms, 1 s against a silent peer; 10 s and 2^32-1 ms otherwise}; request bytes must be identical, the C callback must report the same values or the same-named error (hand-written name table), on_complete+on_failure exactly once, on_destroy exactly once; calls that themselves report an error (no connection, queue full, invalid range, null channel); one bit / register list handle used for three calls. Server: 4 write callbacks x WriteResult {success, 9 named exceptions, raw codes, callback not set}: reply bytes equal the Rust server's with the same-named result and the callback sees exactly the sent values. Enums: all 36 decode levels (compared through the log lines both APIs emit), client states on scripted connection histories, retry strategy through behaviour, TLS minimum version / certificate mode / expected name / wildcard switch of C-ABI clients and servers through admission by independent rustls peers, all 72 combinations of DataBits x FlowControl x Parity x StopBits (and three baud rates) through the line settings of a pty, port states on a scripted history. distinct = distinct (operation, peer behaviour, outcome) triples",
     );
     let thorough = rep.thorough();
     let (a, b, c, d, e, f) = on_plain_thread(|| {
@@ -2687,7 +2733,7 @@ pub fn check_c18(tier: &str) -> i32 {
     rep.phase("enums and configuration", d, json!({}));
     rep.phase("TLS configuration through the C ABI (client and server) against independent rustls peers", e, json!({}));
     rep.phase("serial port settings and port states through the C ABI over ptys", f, json!({}));
-    for c in ["outcome:success", "outcome:exception", "outcome:timeout", "outcome:io", "outcome:bad-frame", "outcome:bad-response", "write-result-success", "write-result-named-exception", "write-result-raw-exception", "write-callback-not-set", "call:no-connection", "call:queue-full", "call:parameter-validation", "enum:decode-level", "enum:client-state", "config:retry-strategy", "config:retry-strategy-doubling", "config:tls-client", "config:tls-server", "config:serial-settings", "enum:port-state"] {
+    for c in ["outcome:success", "outcome:exception", "outcome:timeout", "outcome:io", "outcome:bad-frame", "outcome:bad-response", "write-result-success", "write-result-named-exception", "write-result-raw-exception", "write-callback-not-set", "call:no-connection", "call:queue-full", "call:parameter-validation", "call:list-reuse", "enum:decode-level", "enum:client-state", "config:retry-strategy", "config:retry-strategy-doubling", "config:tls-client", "config:tls-server", "config:serial-settings", "enum:port-state"] {
         rep.require_class(c);
     }
     rep.exhaustive = thorough;
